@@ -121,6 +121,16 @@ def run(ctx):
             if dviol <= 4:
                 ctx.violation("`%s` holds %s time(s); the byte-string model says %d" % (q, "?" if r.crash else len(r.results), e),
                               {"query": q, "expected_results": e})
+    # ?match / =~ against the documented meaning ("The whole string has to match"); the regex
+    # engine itself is an oracle, so only literal / trivially anchored cases are used
+    mcases = [("foobar", "foobar", 1), ("foobar", "f.*r", 1), ("foobar", "oba", 0), ("foobar", "foo", 0), ("", "", 1), ("abc", "b", 0), ("abc", ".*b.*", 1)]
+    mq = ['"%s" "%s" ?match' % (h, n) for h, n, _ in mcases] + ['("%s" =~ "%s")' % (h, n) for h, n, _ in mcases]
+    mr = zw.run_cases([zw.enc(q) for q in mq])
+    for q, r, (h, n, e) in zip(mq, mr, mcases + mcases):
+        stats["evaluations"] += 1
+        if r.crash or len(r.results) != e:
+            ctx.violation("`%s` holds %s time(s); the documentation (whole string has to match) says %d" % (q, "?" if r.crash else len(r.results), e),
+                          {"query": q, "expected_results": e})
     # history independence, checked on the implementation directly
     groups = {}
     rr2 = zw.run_cases([zw.enc(q) for q in progs[-300:]])
